@@ -229,3 +229,136 @@ def arc_ilength_sampled(c):
         c.ensures('length(0,t)==s-to-tolerance', abs(arc.length(0, t) - s) <= max(1e-9, 1e-9 * L))
         c.ensures('non-decreasing-in-s', t >= prev - 1e-9)
         prev = t
+
+
+def _small(z, m):
+    """the sampler draws over many magnitudes; fold a drawn complex into the square |re|,|im| < m"""
+    return complex(math.fmod(z.real, m), math.fmod(z.imag, m))
+
+
+@contract('C11', 'path.Arc.intersect', params=[{'other': o, '_bounded_only': True} for o in ('L', 'Q', 'C')])
+def arc_reported_pairs_are_real_sampled(c, other):
+    """bounded stand-in (arcs are outside the deductive part of C11): every pair an Arc reports
+    with a Line / QuadraticBezier / CubicBezier has both parameters in [0,1] and the two points
+    coincide; the other operand order gives the transposed pairs"""
+    import svgpathtools.path as sp
+    k = [1.0, 1.0, 100.0, 1000.0, 0.01][int(abs(c.real('size')) * 10) % 5]      # the statement has no preferred size
+    rx, ry = k * (1 + abs(c.real('rx')) % 9), k * (1 + abs(c.real('ry')) % 9)
+    rot = [0.0, 0.0, 30.0, 77.0, 90.0, -45.0][int(abs(c.real('rot')) * 10) % 6]
+    ctr = k * _small(c.cplx('center'), 100)
+    a0 = (c.real('a0') * 100) % 360 - 180
+    d = (20 + abs(c.real('d')) * 100 % 320) * (1 if c.bool('sweep') else -1)
+    w = cmath.exp(1j * math.radians(rot))
+
+    def pt(a):
+        return ctr + w * complex(rx * math.cos(math.radians(a)), ry * math.sin(math.radians(a)))
+    s, e = pt(a0), pt(a0 + d)
+    c.assume(abs(s - e) > 1e-3 * k)
+    arc = sp.Arc(s, complex(rx, ry), rot, abs(d) > 180, d > 0, e)
+    n = {'L': 2, 'Q': 3, 'C': 4}[other]
+    P = [ctr + 1.5 * (rx + ry) * _small(c.cplx('p%d' % i), 1) for i in range(n)]
+    c.assume(len(set(P)) == n)
+    seg = {2: sp.Line, 3: sp.QuadraticBezier, 4: sp.CubicBezier}[n](*P)
+    r1 = list(arc.intersect(seg))
+    r2 = list(seg.intersect(arc))
+    size = rx + ry + max(abs(z - ctr) for z in P)
+    for (t1, t2) in r1:
+        c.ensures('parameters-in-[0,1]', 0 <= t1 <= 1 and 0 <= t2 <= 1)
+        c.ensures('points-coincide', abs(arc.point(t1) - seg.point(t2)) <= 1e-6 * size)
+    for (t2, t1) in r2:
+        c.ensures('other-order:parameters-in-[0,1]', 0 <= t1 <= 1 and 0 <= t2 <= 1)
+        c.ensures('other-order:points-coincide', abs(arc.point(t1) - seg.point(t2)) <= 1e-6 * size)
+    c.ensures('both-orders-report-the-same-number', len(r1) == len(r2))
+
+
+@contract('C14', 'path.Path.area', params=[{'shape': s, '_bounded_only': True} for s in ('arc+chord', 'two-arcs', 'arc+two-lines')])
+def area_with_arcs_is_green_within_the_chord_approximation_sampled(c, shape):
+    """bounded stand-in (arcs are outside the deductive part of C14): a closed path containing
+    arcs has area() equal to the exact signed area -- the elliptical segment rx*ry/2*(d - sin d)
+    of each arc plus the polygon of the end points -- within the inscribed-polygon deficiency
+    bound of the chord length used; the same after a translation"""
+    import svgpathtools.path as sp
+    rx, ry = 1 + abs(c.real('rx')) % 2, 1 + abs(c.real('ry')) % 2
+    rot = [0.0, 30.0, 77.0, 90.0, -45.0][int(abs(c.real('rot')) * 10) % 5]
+    ctr = _small(c.cplx('center'), 10)
+    a0 = (c.real('a0') * 100) % 360 - 180
+    d = (20 + abs(c.real('d')) * 100 % 320) * (1 if c.bool('sweep') else -1)
+    w = cmath.exp(1j * math.radians(rot))
+
+    def pt(a):
+        return ctr + w * complex(rx * math.cos(math.radians(a)), ry * math.sin(math.radians(a)))
+
+    def seg_area(dd):
+        return rx * ry / 2 * (math.radians(dd) - math.sin(math.radians(dd)))
+
+    def poly(zs):
+        return sum((zs[i].real * zs[(i + 1) % len(zs)].imag - zs[(i + 1) % len(zs)].real * zs[i].imag) for i in range(len(zs))) / 2
+    s, e = pt(a0), pt(a0 + d)
+    c.assume(abs(s - e) > 1e-2)
+    arc = sp.Arc(s, complex(rx, ry), rot, abs(d) > 180, d > 0, e)
+    if shape == 'arc+chord':
+        path, exact = sp.Path(arc, sp.Line(e, s)), seg_area(d)
+    elif shape == 'two-arcs':
+        d2 = (360 - abs(d)) * (1 if d > 0 else -1)        # the rest of the ellipse, same direction
+        arc2 = sp.Arc(e, complex(rx, ry), rot, abs(d2) > 180, d2 > 0, s)
+        path, exact = sp.Path(arc, arc2), seg_area(d) + seg_area(d2)
+    else:
+        q = ctr + _small(c.cplx('q'), 4)
+        path, exact = sp.Path(arc, sp.Line(e, q), sp.Line(q, s)), seg_area(d) + poly([s, e, q])
+    h = 0.02
+    L = sum(x.length() for x in path if isinstance(x, sp.Arc))
+    kmax = max(rx, ry) / min(rx, ry) ** 2
+    tol = 2 * L * (3 * h) ** 2 * kmax / 12 + 1e-9
+    a = path.area(chord_length=h)
+    c.ensures('area==exact-signed-area-within-the-chord-bound', abs(a - exact) <= tol)
+    z = _small(c.cplx('z'), 50)
+    c.ensures('translated:area-unchanged-within-the-chord-bound', abs(path.translated(z).area(chord_length=h) - exact) <= tol)
+    c.ensures('reversed:area-changes-sign', abs(path.reversed().area(chord_length=h) + exact) <= tol)
+
+
+@contract('C12', 'path.Arc.intersect', params=[{'other': o, '_bounded_only': True} for o in ('L', 'Q', 'C')])
+def arc_transversal_crossing_is_reported_once_sampled(c, other):
+    """bounded stand-in (arcs are outside the deductive part of C12): a short Line / Quadratic /
+    Cubic built to pass through a point strictly inside an arc, at 40..140 degrees to the arc's
+    tangent and shorter than any chord of the ellipse in that direction, is reported to cross the
+    arc there - exactly one pair within 1e-4 of the true parameters, in both operand orders"""
+    import svgpathtools.path as sp
+    k = [1.0, 1.0, 100.0, 1000.0, 0.01][int(abs(c.real('size')) * 10) % 5]      # the statement has no preferred size
+    rx, ry = k * (1 + abs(c.real('rx')) % 2), k * (1 + abs(c.real('ry')) % 2)
+    rot = [0.0, 0.0, 30.0, 77.0, 90.0, -45.0][int(abs(c.real('rot')) * 10) % 6]
+    ctr = k * _small(c.cplx('center'), 10)
+    a0 = (c.real('a0') * 100) % 360 - 180
+    d = (20 + abs(c.real('d')) * 100 % 320) * (1 if c.bool('sweep') else -1)
+    w = cmath.exp(1j * math.radians(rot))
+
+    def pt(a):
+        return ctr + w * complex(rx * math.cos(math.radians(a)), ry * math.sin(math.radians(a)))
+    s, e = pt(a0), pt(a0 + d)
+    c.assume(abs(s - e) > 1e-2 * k)
+    arc = sp.Arc(s, complex(rx, ry), rot, abs(d) > 180, d > 0, e)
+    t = 0.1 + 0.8 * (abs(c.real('t')) % 1)
+    a = a0 + d * t
+    p = pt(a)
+    tang = w * complex(-rx * math.sin(math.radians(a)), ry * math.cos(math.radians(a))) * (1 if d > 0 else -1)
+    tang /= abs(tang)
+    dirn = tang * cmath.exp(1j * math.radians(40 + 100 * (abs(c.real('ang')) % 1)))
+    h1, h2 = k * (0.05 + 0.1 * (abs(c.real('h1')) % 1)), k * (0.05 + 0.1 * (abs(c.real('h2')) % 1))   # chords here are >= 0.42 k long
+    if other == 'L':
+        seg, u = sp.Line(p - dirn * h1, p + dirn * h2), h1 / (h1 + h2)
+    else:
+        perp = 1j * dirn
+        P0 = p - dirn * h1 + perp * 0.3 * h1 * (abs(c.real('e1')) % 1)
+        Pn = p + dirn * h2 - perp * 0.3 * h2 * (abs(c.real('e2')) % 1)
+        u = 0.5
+        if other == 'Q':
+            seg = sp.QuadraticBezier(P0, (4 * p - P0 - Pn) / 2, Pn)
+        else:
+            P1 = P0 + (Pn - P0) / 3 + perp * 0.1 * h1 * (abs(c.real('e3')) % 1)
+            seg = sp.CubicBezier(P0, P1, (8 * p - P0 - 3 * P1 - Pn) / 3, Pn)
+    c.assume(abs(arc.point(t) - p) <= 1e-9 * k * 20 and abs(seg.point(u) - p) <= 1e-9 * k * 20)     # the construction is what it claims
+    near = [(t1, t2) for (t1, t2) in arc.intersect(seg) if abs(t1 - t) <= 1e-4 and abs(t2 - u) <= 1e-4]
+    c.ensures('arc.intersect(seg):the-crossing-is-reported', len(near) >= 1)
+    c.ensures('arc.intersect(seg):reported-once', len(near) <= 1)
+    near = [(t2, t1) for (t2, t1) in seg.intersect(arc) if abs(t1 - t) <= 1e-4 and abs(t2 - u) <= 1e-4]
+    c.ensures('seg.intersect(arc):the-crossing-is-reported', len(near) >= 1)
+    c.ensures('seg.intersect(arc):reported-once', len(near) <= 1)
